@@ -311,6 +311,8 @@ func (ei *resourceInformer) handleWatchEvent(object interface{}, eventType kemty
 
 	resourceId := resourceId(obj)
 
+	verifhook.Point("ri.ev.enter", ei.Monitor.Metadata.MonitorId, ei.Namespace, ei.Name, resourceId, string(eventType))
+
 	// Always calculate checksum and update cache, because we need an actual state in ei.cachedObjects.
 
 	var objFilterRes *kemtypes.ObjectAndFilterResult
